@@ -62,6 +62,7 @@ struct World {
     panics_seen: usize,
     skew_guard: BTreeMap<usize, u64>,
     skewed: bool,
+    last_existed: Option<bool>,
     next_uid: u64,
     delivered: Vec<Value>,         // every htlc event delivered so far (for replays after a crash)
     answered: Vec<u64>,
@@ -257,6 +258,13 @@ async fn apply(w: &mut World, mgr: &Arc<Mgr>, ev: &Value) -> (bool, Option<Value
                 let ci = match find_call(&n, &h, c) { Some(ci) => ci, None => return (false, None) };
                 if n.calls[ci].status != CStat::Unprocessed || n.calls[ci].epoch != n.epoch { return (false, None); }
                 if is_timeout && !wait_timed_out(&n, ci) { return (false, None); }
+                // for a write: did the key exist when the node executed it (the effect of an append mode depends on it)
+                let existed = match (&n.calls[ci].q, n.calls[ci].hash.as_ref().and_then(|hh| n.hashes.get(hh))) {
+                    (Q::WriteState { .. }, Some(hn)) => Some(hn.state.is_some()),
+                    (Q::WriteAtt { att, .. }, Some(hn)) => Some(hn.atts.contains_key(att)),
+                    (Q::WriteState { .. }, None) | (Q::WriteAtt { .. }, None) => Some(false),
+                    _ => None };
+                w.last_existed = existed;
                 let r = n.exec(ci, &fault);
                 let is_pay = matches!(n.calls[ci].q, Q::Pay { .. });
                 match &r {
@@ -549,7 +557,7 @@ pub fn run_case(case: &Value) -> Value {
     let node: Shared = Arc::new(Mutex::new(Node::default()));
     let mut w = World { cfg: cfg.clone(), node: node.clone(), invoices: vec![], hashes: vec![], preimages: BTreeMap::new(), att_ord: BTreeMap::new(),
         responses: Arc::new(Mutex::new(vec![])), notes: Arc::new(Mutex::new(vec![])), height: Arc::new(AtomicU32::new(0)), panics_seen: PANICS.load(Ordering::SeqCst),
-        skew_guard: BTreeMap::new(), skewed: false, next_uid: 0, delivered: vec![], answered: vec![], resolved: vec![], held: vec![] };
+        skew_guard: BTreeMap::new(), skewed: false, last_existed: None, next_uid: 0, delivered: vec![], answered: vec![], resolved: vec![], held: vec![] };
     // invoices: either descriptors (built here) or {"raw": bolt11}
     for d in case["invoices"].as_array().cloned().unwrap_or_default() {
         let s = match d.get("raw").and_then(|r| r.as_str()) { Some(r) => r.to_string(), None => world::make_invoice(&d) };
@@ -762,6 +770,7 @@ pub fn run_case(case: &Value) -> Value {
                 release_guards(&mut w);
                 let mut st = json!({"out": out});
                 if let Some(r) = reply { st["reply"] = r; }
+                if let Some(x) = w.last_existed.take() { st["existed"] = json!(x); }
                 events.push(ev);
                 steps.push(st);
                 if events.len() > 3000 { done = true; return false; }
